@@ -155,3 +155,28 @@ def run(chk, repo):
                offs.get((k, 1)) == want[(k, 1)] and offs.get((k, -1)) == want[(k, -1)],
                f"{k}: + '{offs.get((k, 1))}', - '{offs.get((k, -1))}' (expected '{want[(k, 1)]}' / '{want[(k, -1)]}'): the tolerance window is applied mirrored on the - strand",
                key=fi.qual + f'::{k}', fn=fi.qual)
+
+    # pairing of offsets and tolerance ranges
+    chk.rule('C17.e', 'tolerance tests pair start_offset with intron_start_range and end_offset with intron_end_range; CIRCexplorer3 thresholds all effective', 5)
+    for n in ast.walk(fi.node):
+        if isinstance(n, ast.Compare) and len(n.ops) == 1 and isinstance(n.ops[0], ast.In) and unparse(n.left) in ('start_offset', 'end_offset'):
+            want = 'intron_start_range' if unparse(n.left) == 'start_offset' else 'intron_end_range'
+            chk.ob('C17.e', f"'{unparse(n)}' pairs offset and range of the same end", repo.loc(fi, n), unparse(n.comparators[0]) == want,
+                   f"'{unparse(n)}' tests an offset against the tolerance of the other intron end", key=fi.qual + f"::pairing::{unparse(n.left)}::{n.lineno - fi.node.lineno > 60}", fn=fi.qual)
+    v3 = repo.func('parser.CIRCexplorerParser:CIRCexplorer3KnownRecord.is_valid')
+    chk.uses(v3)
+    vcfg = CFG(v3.node)
+    bad = None
+    need = ['not min_fbr_circ or not self.fpb_circ < min_fbr_circ', 'not min_circ_score or not self.circ_score < min_circ_score']
+    for pth in vcfg.paths(vcfg.entry, max_paths=500):
+        if pth.end_kind() != 'return':
+            continue
+        last = vcfg.nodes[pth.steps[-1][0]].ast
+        if isinstance(last.value, ast.Constant) and last.value.value is False:
+            continue
+        # a non-False return: both threshold rejects must be known false on the path and the value must be the base-class verdict
+        if not all(pth.facts.known(x) is True for x in need) or unparse(last.value) != 'super().is_valid(min_read_number)':
+            bad = bad or pth
+    chk.ob('C17.e', 'CIRCexplorer3.is_valid accepts only if fpb_circ and circ_score pass AND the read-number test of the base class passes', v3.where, bad is None,
+           'a path of is_valid returns something other than False without all three threshold verdicts being conjoined (a later verdict overwrites an earlier one)',
+           key=v3.qual + '::conjunction', path=bad.describe(v3.module.relpath) if bad else None, fn=v3.qual)
